@@ -21,6 +21,7 @@ META = dict(
 
 def jobs(tier, seed):
     J = [dict(name="step-lemma", kind="step", timeout=300), dict(name="range-16bit", kind="range", timeout=300), dict(name="default-start-and-no-final-xor", kind="default", timeout=300), dict(name="fact:one-byte-nonzero", kind="fact1", timeout=300), dict(name="twin:poly-8409-refuted", kind="step", wrongpoly=0x8409, expect="violated", timeout=300), dict(name="proxy-selftest", kind="selftest", timeout=300)]
+    J.append(dict(name="history:same-buffer-mutated-between-calls", kind="history", timeout=300))
     maxlen = 8 if tier == "quick" else 32
     for n in range(0, maxlen + 1):
         J.append(dict(name="unrolled:len%d" % n, kind="unrolled", n=n, timeout=900, cost=n + 1))
@@ -146,6 +147,25 @@ def run_job(job):
             vars_ = dict(start=s)
             vars_.update({"d%d" % i: x for i, x in enumerate(d)})
             decide("unrolled%d" % n, pc, z3.And(out.ext(40) == z3.ZeroExt(24, ref), out.ext(40) >= 0, out.ext(40) < 65536), vars_)
+    elif kind == "history":
+        # the result depends on the current content of the buffer only: same (mutable) list object,
+        # same start value, changed in place between two calls, other calls in between
+        def fn():
+            s_ = BV.var("start", 0, 0xFFFF)
+            buf = [BV.var("d%d" % i, 0, 255) for i in range(3)]
+            r1 = BV.lift(real(buf, s_))
+            new0 = BV.var("n0", 0, 255)
+            buf[0] = new0
+            r2 = BV.lift(real(buf, s_))
+            buf.append(BV.var("n3", 0, 255))
+            r3 = BV.lift(real(buf, s_))
+            return s_, buf, r2, r3
+
+        for pc, (s_, buf, r2, r3) in run(fn):
+            st = z3.Extract(15, 0, s_.ext(17))
+            ref2 = ref_crc_z3(z3, [z3.Extract(7, 0, x.ext(9)) for x in buf[:3]], st)
+            ref3 = ref_crc_z3(z3, [z3.Extract(7, 0, x.ext(9)) for x in buf], st)
+            decide("history", pc, z3.And(r2.ext(40) == z3.ZeroExt(24, ref2), r3.ext(40) == z3.ZeroExt(24, ref3)), dict(start=s_))
     elif kind == "compose":
         a, b = job["a"], job["b"]
 
@@ -188,6 +208,12 @@ def replay(job):
     w = job.get("witness") or {}
     kind = job["kind"]
     start = w.get("start", 0xFFFF)
+    if kind == "history":
+        buf = bytearray(b"\x01\x02\x03")
+        r1 = b2.crc8404B(buf, start)
+        buf[0] = 0x77
+        r2 = b2.crc8404B(buf, start)
+        return dict(reproduced=r2 != py_ref(bytes(buf), start), signature="C15:history", detail="crc8404B of a bytearray changed in place between two calls: second call gives %#x, reference %#x" % (r2, py_ref(bytes(buf), start)))
     if kind == "compose":
         da = [w["a%d" % i] for i in range(job["a"])]
         db = [w["b%d" % i] for i in range(job["b"])]
